@@ -170,6 +170,26 @@ func resetIsLoop(lit *ssa.Function, f *types.Var) bool {
 }
 
 func runC01(w *World, r *Report) {
+	// ---- shared with the stream substrate / isolation properties: facts the run result depends on
+	r.Rule("C01.fan-in-terminates", "merged stream dispatch: the static select and the reflect select agree on the boundary (a fan-in of exactly maxSelectNum streams must not take the reflect path without a case table) — shared with C08", 1)
+	mergeDispatchCheck(w, r, "C01.fan-in-terminates")
+	r.Rule("C01.successors-not-mutated", "the successor lists of the compiled graph (chanCall.writeTo …) are never the first operand of an append on the run path: a run's branch choice must not be written into storage other runs read", 1)
+	{
+		owners := map[*types.Named]bool{w.Named("compose", "chanCall"): true}
+		reach := runReach(w)
+		var fns []*ssa.Function
+		for _, fn := range w.RepoFuncs("compose") {
+			if reach[fn] || reach[topFunc(fn)] {
+				fns = append(fns, fn)
+			}
+		}
+		n0 := len(r.Obs)
+		ruleAppendAlias(w, r, "C01.successors-not-mutated", owners, fns, reach)
+		if len(r.Obs) == n0 {
+			r.OK("C01.successors-not-mutated", "run-path appends", w.Fn("compose", "runner.resolveCompletedTasks").Pos(), fmt.Sprintf("%d run-path functions: no append starts from a chanCall slice", len(fns)))
+		}
+	}
+
 	run := w.Fn("compose", "runner.run")
 	submit := w.Fn("compose", "taskManager.submit")
 	fDag := w.Field("compose", "runner", "dag")
